@@ -108,6 +108,7 @@ theorem C10_step_refines (st : St) (r : Ref) (op : Op) (h : Inv st r) :
   | sendStanza b => exact ⟨rfl, push_inv st r b h⟩
   | sendRaw b => exact ⟨rfl, push_inv st r b h⟩
   | sendNonza b => exact ⟨rfl, h⟩
+  | sendFail b => exact ⟨rfl, push_inv st r b h⟩
   | req b => exact ⟨rfl, h⟩
   | inbound => exact ⟨rfl, h⟩
   | ack a =>
